@@ -56,3 +56,50 @@ Definition model_verdict (w : N) (x : xnode) : N * bool :=
    | PErr => 2%N
    | POutOfFuel => 3%N
    end, use_loop x).
+
+(* ---- the pre-pass clause checked on the IMPLEMENTATION's result, independently of the model's pre-pass:
+   rebuild the svgtree after parse_tree from the model's build and the reference table the harness
+   dumped, then look for a remaining cycle of length <= 2 with a direct (guard-free) boolean test ---- *)
+Definition attrs_keep (id : nat) (t : list (nat * akey * N)) (a : attrs) : attrs :=
+  map (fun kv => match kv with
+                 | (k, Some v) => if existsb (entry_eqb (id, k, v)) t then kv else (k, None)
+                 | _ => kv
+                 end) a.
+Fixpoint apply_table (t : list (nat * akey * N)) (x : snode) : snode :=
+  match x with SN i tg n f a ks => SN i tg n f (attrs_keep i t a) (map (apply_table t) ks) end.
+
+Definition short_link_cycle_b (e : tagk) (k : akey) (d : snode) : bool :=
+  existsb (fun node =>
+    tag_eqb (s_tag node) e &&
+    existsb (fun child =>
+      match node_attr d k child with
+      | Some link =>
+          Nat.eqb (s_id link) (s_id node) ||
+          existsb (fun n2 => match node_attr d k n2 with Some l2 => Nat.eqb (s_id l2) (s_id node) | None => false end) (sflat link)
+      | None => false
+      end) (sflat node)) (sflat d).
+
+Definition short_pattern_cycle_b (k : akey) (d : snode) : bool :=
+  existsb (fun p =>
+    tag_eqb (s_tag p) TPattern &&
+    existsb (fun node =>
+      match attr_link k (s_attrs node) with
+      | Some lid =>
+          optN_eqb (Some lid) (s_name p) ||
+          match lookup d lid with
+          | Some ln => existsb (fun n2 => match attr_link k (s_attrs n2) with Some l2 => optN_eqb (Some l2) (s_name p) | None => false end) (sflat ln)
+          | None => false
+          end
+      | None => false
+      end) (sflat p)) (sflat d).
+
+Definition any_short_cycle (d : snode) : bool :=
+  short_pattern_cycle_b AFill d || short_pattern_cycle_b AStroke d ||
+  short_link_cycle_b TClipPath AClip d || short_link_cycle_b TMask AMask d || short_link_cycle_b TFilter AFilter d.
+
+(* true = fine *)
+Definition chk_impl_prepass (p : xnode * option (Z * list (nat * akey * N))) : bool :=
+  match build (fst p), snd p with
+  | (_, OOk s), Some (_, t) => negb (any_short_cycle (apply_table t s))
+  | _, _ => true
+  end.
